@@ -90,7 +90,10 @@ RECURSIVE Msb(_)
 Msb(n) == IF n <= 1 THEN 0 ELSE 1 + Msb(n \div 2)
 FloatBits(uN, uK) == IF uN = 0 THEN 0 ELSE LET m == Msb(uN) IN (m - uK + 127) * 8388608 + (uN - 2^m) * 2^(23 - m)
 MaxFloatBits == 2139095039      \* 0x7F7FFFFF, the class default of the upper bound
-UpperBits(c) == IF c.uInf THEN MaxFloatBits ELSE FloatBits(c.uN, c.uK)
+(* (uShift: the bound additionally times 2^uShift - a power of two only moves the exponent) *)
+UpperBits(c) == IF c.uInf THEN MaxFloatBits
+                ELSE IF c.uN = 0 THEN 0
+                ELSE FloatBits(c.uN, c.uK) + (IF "uShift" \in DOMAIN c THEN c.uShift ELSE 0) * 8388608
 (* "Iterates therefore always lie within [0, upper bound]" on recorded bit patterns *)
 WithinBounds(c, bits) == \A v \in 1..Len(bits) : bits[v] >= 0 /\ bits[v] <= UpperBits(c)
 
@@ -102,6 +105,18 @@ ScaledConfig(c1, c2, j) ==
   /\ ~c1.prior /\ ~c2.prior /\ c2.N = c1.N /\ c2.startSubset = c1.startSubset
   /\ << c2.aN, c2.aK, c2.gN, c2.gK >> = << c1.aN, c1.aK, c1.gN, c1.gK >>
   /\ c2.uInf = c1.uInf /\ (~c1.uInf => (c2.uK = c1.uK /\ c2.uN = c1.uN * 2^j))
+(* EFFICIENCY SCALE CLAUSE (a consequence of the law, no prior): multiply the bin efficiencies by 2^-j and the image, the   *)
+(* additive term and the upper bound by 2^j, data unchanged - the mean n (P lambda + a) of the data is unchanged, the        *)
+(* gradient P_S^T n (y/ybar - 1) is multiplied by 2^-j, the denominator P^T (n^2 (P 1)/y) by 2^-2j, so the increment and the *)
+(* new image are multiplied by 2^j, bit-exactly, for every j for which no number leaves the range of a float (here |j| <= 40)*)
+(* - INSIDE THE THRESHOLD-FREE DOMAIN: every absolute threshold on sensitivities, denominators or image values in the       *)
+(* implementation would break it.  The documented thresholds are relative (denominator: 1e-5 times its smallest positive     *)
+(* element; quotients y/ybar: unchanged by the scaling) and voxels of sensitivity exactly 0 stay at 0, so exact instances    *)
+(* with y/ybar in [1/4, 4] are inside the domain for every such j.                                                            *)
+ScaledConfigEff(c1, c2, j) ==
+  /\ ~c1.prior /\ ~c2.prior /\ c2.N = c1.N /\ c2.startSubset = c1.startSubset
+  /\ << c2.aN, c2.aK, c2.gN, c2.gK >> = << c1.aN, c1.aK, c1.gN, c1.gK >>
+  /\ c2.uInf = c1.uInf /\ c2.uK = c1.uK /\ c2.uN = c1.uN /\ c2.uShift = c1.uShift + j
 ScaledSeq(q1, q2, j) == Len(q1) = Len(q2) /\ \A i \in 1..Len(q1) : q2[i] = q1[i] * 2^j
 
 -----------------------------------------------------------------------------
